@@ -1,5 +1,6 @@
 import VncModel.Auth.Complete
 import VncModel.Des.Lemmas
+import VncModel.Des.Inverse
 /-!
 # C05 — Password-protected screens admit exactly the clients that prove the password
 
@@ -44,8 +45,13 @@ witnesses are replayed on the real code from corpus/C05/.
   connections do in between.
 * `no_type_skips_auth` — in state SECURITY_TYPE every chosen type 0..255 either is VNC
   authentication (challenge sent, state AUTHENTICATION) or closes the connection.
+* `des_decrypt_encrypt`, `password_file_roundtrip`, `file_form_exact` — for the concrete DES of
+  `VncModel/Des/Des.lean`: decryption inverts encryption (initial/final permutation inverse to each
+  other, Feistel rounds undone by the reversed key schedule); hence what rfbEncryptAndStorePasswd
+  writes, rfbDecryptPasswdFromFile reads back, and a screen whose password file was written for `pw`
+  accepts exactly the response `rfbEncryptBytes pw challenge` (never view-only).
 * DES (cheap facts; the DES model itself is validated differentially): `vncKey_prefix`,
-  `rfbEncryptBytes_prefix`, `refused_keys_count`, `refused_keys_few_subkeys`,
+  `rfbEncryptBytes_prefix`, `refused_keys_count`, `refused_keys_halves_period4`,
   `empty_password_key_refused`, `weak_key_echo_unfixed`.
 
 Nothing is `_partial`.  Assumptions of the model are listed in docs/C05.md (no
@@ -141,13 +147,13 @@ theorem no_type_skips_auth (env : Env) (scr : Screen) (hs : List Nat) (rand : Li
   have h1 : ¬ (!c.isOpen) = true := by simp [ho]
   have h2 : ¬ c.st = .normal := by simp [hst]
   have h3 : ¬ c.inbuf.length < need c.st := by rw [hst, need_sec, hbuf]; simp
-  simp only [procConn, if_neg h1, if_neg h2, if_neg h3, hst, dispatch, need_sec, hbuf]
+  simp only [procConn, if_neg h1, hst, dispatch, need_sec, hbuf]
   by_cases ht : t = 2
   · left
     subst ht
     have h22' : (2 : UInt8).toNat = secVncAuth := by decide
     by_cases hp : c.peerClosed = true
-    · simp [processSecurityType, hb, h22', runHandler, secVncAuth_ne_secNone, sendChallenge, hp, close, hst]
+    · simp [processSecurityType, hb, h22', runHandler, secVncAuth_ne_secNone, sendChallenge, hp, close]
     · simp [processSecurityType, hb, h22', runHandler, secVncAuth_ne_secNone, sendChallenge, hp, wr]
   · right
     have hne : t.toNat ≠ secVncAuth := by
@@ -155,11 +161,11 @@ theorem no_type_skips_auth (env : Env) (scr : Screen) (hs : List Nat) (rand : Li
       intro h
       apply ht
       exact UInt8.toNat_inj.mp (by simpa using h)
-    simp [processSecurityType, hb, hne, close, hst, ht]
+    simp [processSecurityType, hb, hne, close, ht]
 
 /-- **Completeness, first half (3.7 and later)**: a new inbound connection `cid` to a password
 screen that sends a version message parsed as 3.`minor` with `minor ≥ 7`, then the byte 2, receives
-the list containing VNC authentication and then its challenge and is in state AUTHENTICATION —
+a (non-empty) security-type list and then its challenge and is in state AUTHENTICATION —
 whatever events of other connections (`o1 o2 o3`, e.g. connections to password-less screens or
 reverse connections that rewrite the process-global handler list) are interleaved. -/
 theorem reach_authentication_38 (env : Env) (screens : List Screen) (s : Proc) (cid sid : Nat)
@@ -174,45 +180,24 @@ theorem reach_authentication_38 (env : Env) (screens : List Screen) (s : Proc) (
              [.recv cid [2], .proc cid] ++ o3)) cid = some c ∧
       c.st = .auth ∧ c.isOpen = true ∧ c.peerClosed = false ∧ c.inbuf = [] ∧ c.viewOnly = false ∧
       c.screen = sid ∧ c.reverse = false ∧
-      ∃ l, c.sent = [.challenge c.challenge, .secTypes l, .version] ∧ 2 ∈ l := by
-  simp only [run, List.foldl_append, List.foldl_cons, List.foldl_nil]
+      ∃ l, l ≠ [] ∧ c.sent = [.challenge c.challenge, .secTypes l, .version] := by
+  simp only [run_append, run_cons, run_nil]
   -- connect
   have e0 : getConn (step true env screens s (.connect cid sid false)) cid =
       some { id := cid, screen := sid, reverse := false, sent := [.version] } := by
     simp [step, hfresh, hscr, getConn]
-  -- others
-  have f1 := getConn_run_foreign true env screens o1 (step true env screens s (.connect cid sid false)) cid ho1
-  simp only [run] at f1
-  rw [e0] at f1
+  -- events of others
+  have f1 := (getConn_run_foreign true env screens o1 _ cid ho1).trans e0
   -- version message
-  have e1 := getConn_recv true env screens _ cid pv _ f1 rfl
-  have hn : NeedsAuth scr { id := cid, screen := sid, reverse := false, sent := [.version],
-      inbuf := [] ++ pv } := ⟨hpw, rfl⟩
-  have e2 := getConn_proc true env screens _ cid _ scr e1 hscr
-  rw [procConn_version_list true env scr _ _ _ pv minor hn rfl rfl rfl (by simp) hlen hparse hm] at e2
-  have f2 := getConn_run_foreign true env screens o2 _ cid ho2
-  simp only [run] at f2
-  rw [e2] at f2
+  have e2 := getConn_recv_proc true env screens _ cid pv _ _ scr f1 rfl hscr
+    (fun hs' rand => procConn_version_list true env scr hs' rand _ pv minor ⟨hpw, rfl⟩ rfl rfl rfl
+      (by simp) hlen hparse hm)
+  have f2 := (getConn_run_foreign true env screens o2 _ cid ho2).trans e2
   -- security type 2
-  have e3 := getConn_recv true env screens _ cid [2] _ f2 rfl
-  have e4 := getConn_proc true env screens _ cid _ scr e3 hscr
-  rw [procConn_choose_vncAuth env scr _ _ _ ⟨hpw, rfl⟩ rfl rfl rfl (by simp)] at e4
-  have f3 := getConn_run_foreign true env screens o3 _ cid ho3
-  simp only [run] at f3
-  rw [e4] at f3
-  refine ⟨_, f3, rfl, rfl, rfl, rfl, rfl, rfl, rfl, _, rfl, ?_⟩
-  -- VNC authentication is in the list that was offered
-  simp only [offered, newHandlers, if_neg secVncAuth_ne_secNone, register]
-  have h254 : Gen.C05.MAX_SECURITY_TYPES - 1 = 254 := by decide
-  have h2 : secVncAuth = 2 := by decide
-  rw [h254, h2]
-  split
-  · rename_i hmem
-    -- 2 is in a list that only ever holds the two built-in types: it survives `take 254` when it is
-    -- among the first 254 entries; the list has no duplicates in reachable states, but we do not need
-    -- that: `register` put it at the head unless it was already there, and then `unregister 1` kept it
-    exact take_mem_of_short _ _ hmem
-  · simp
+  have e4 := getConn_recv_proc true env screens _ cid [2] _ _ scr f2 rfl hscr
+    (fun hs' rand => procConn_choose_vncAuth env scr hs' rand _ ⟨hpw, rfl⟩ rfl rfl rfl (by simp))
+  have f3 := (getConn_run_foreign true env screens o3 _ cid ho3).trans e4
+  exact ⟨_, f3, rfl, rfl, rfl, rfl, rfl, rfl, rfl, _, offered_vncAuth_ne_nil _, rfl⟩
 
 /-- **Completeness, first half (3.3 path)**: version message with `minor < 7` ⇒ type word 2 and the
 challenge, state AUTHENTICATION, whatever other connections do. -/
@@ -227,21 +212,15 @@ theorem reach_authentication_33 (env : Env) (screens : List Screen) (s : Proc) (
       c.st = .auth ∧ c.isOpen = true ∧ c.peerClosed = false ∧ c.inbuf = [] ∧ c.viewOnly = false ∧
       c.screen = sid ∧ c.reverse = false ∧
       c.sent = [.challenge c.challenge, .secType33 2, .version] := by
-  simp only [run, List.foldl_append, List.foldl_cons, List.foldl_nil]
+  simp only [run_append, run_cons, run_nil]
   have e0 : getConn (step true env screens s (.connect cid sid false)) cid =
       some { id := cid, screen := sid, reverse := false, sent := [.version] } := by
     simp [step, hfresh, hscr, getConn]
-  have f1 := getConn_run_foreign true env screens o1 (step true env screens s (.connect cid sid false)) cid ho1
-  simp only [run] at f1
-  rw [e0] at f1
-  have e1 := getConn_recv true env screens _ cid pv _ f1 rfl
-  have hn : NeedsAuth scr { id := cid, screen := sid, reverse := false, sent := [.version],
-      inbuf := [] ++ pv } := ⟨hpw, rfl⟩
-  have e2 := getConn_proc true env screens _ cid _ scr e1 hscr
-  rw [procConn_version_33 true env scr _ _ _ pv minor hn rfl rfl rfl (by simp) hlen hparse hm] at e2
-  have f2 := getConn_run_foreign true env screens o2 _ cid ho2
-  simp only [run] at f2
-  rw [e2] at f2
+  have f1 := (getConn_run_foreign true env screens o1 _ cid ho1).trans e0
+  have e2 := getConn_recv_proc true env screens _ cid pv _ _ scr f1 rfl hscr
+    (fun hs' rand => procConn_version_33 true env scr hs' rand _ pv minor ⟨hpw, rfl⟩ rfl rfl rfl
+      (by simp) hlen hparse hm)
+  have f2 := (getConn_run_foreign true env screens o2 _ cid ho2).trans e2
   exact ⟨_, f2, rfl, rfl, rfl, rfl, rfl, rfl, rfl, rfl⟩
 
 /-- **Completeness, second half**: a connection in state AUTHENTICATION (as left by
@@ -259,19 +238,13 @@ theorem auth_complete (env : Env) (screens : List Screen) (s : Proc) (cid : Nat)
             ([.recv cid resp, .proc cid] ++ o1 ++ [.recv cid [shared], .proc cid] ++ o2)) cid = some c' ∧
       c'.st = .normal ∧ c'.isOpen = true ∧ c'.viewOnly = vo ∧
       c'.sent = .serverInit :: .secResult true :: c.sent := by
-  simp only [run, List.foldl_append, List.foldl_cons, List.foldl_nil]
-  have e1 := getConn_recv true env screens s cid resp c hg hp
-  have e2 := getConn_proc true env screens _ cid _ scr e1 hscr
-  rw [procConn_auth_ok env scr _ _ _ resp vo ho hp hst (by simp [hbuf]) hlen hv hchk] at e2
-  have f1 := getConn_run_foreign true env screens o1 _ cid ho1
-  simp only [run] at f1
-  rw [e2] at f1
-  have e3 := getConn_recv true env screens _ cid [shared] _ f1 hp
-  have e4 := getConn_proc true env screens _ cid _ scr e3 hscr
-  rw [procConn_init true env scr _ _ _ shared ho hp rfl (by simp)] at e4
-  have f2 := getConn_run_foreign true env screens o2 _ cid ho2
-  simp only [run] at f2
-  rw [e4] at f2
+  simp only [run_append, run_cons, run_nil]
+  have e2 := getConn_recv_proc true env screens s cid resp c _ scr hg hp hscr
+    (fun hs' rand => procConn_auth_ok env scr hs' rand _ resp vo ho hp hst (by simp [hbuf]) hlen hv hchk)
+  have f1 := (getConn_run_foreign true env screens o1 _ cid ho1).trans e2
+  have e4 := getConn_recv_proc true env screens _ cid [shared] _ _ scr f1 hp hscr
+    (fun hs' rand => procConn_init true env scr hs' rand _ shared ho hp rfl (by simp))
+  have f2 := (getConn_run_foreign true env screens o2 _ cid ho2).trans e4
   exact ⟨_, f2, rfl, ho, rfl, rfl⟩
 
 /-! ## The code before the fixes: the property is false (documented, replayed from corpus/C05) -/
@@ -336,16 +309,52 @@ theorem rfbEncryptBytes_prefix (pw ext chal : List UInt8) (h : 8 ≤ pw.length) 
     rfbEncryptBytes (pw ++ ext) chal = rfbEncryptBytes pw chal :=
   Des.rfbEncryptBytes_append pw ext chal h
 
+/-- DES decryption undoes DES encryption on every 8-byte block, for every key (model of Des.lean) -/
+theorem des_decrypt_encrypt (key block : List UInt8) (h : block.length = 8) :
+    decryptBlock key (encryptBlock key block) = block :=
+  Des.decryptBlock_encryptBlock key block h
+
+/-- what `rfbEncryptAndStorePasswd` writes for `pw`, `rfbDecryptPasswdFromFile` reads back: the first
+eight bytes of `pw` as a C string -/
+theorem password_file_roundtrip (fixedKey pw : List UInt8) :
+    decryptPasswdFile fixedKey (storePasswd fixedKey pw) = some (cstr (padKey pw)) :=
+  Des.decryptPasswdFile_storePasswd fixedKey pw
+
+/-- **the password-file form, exactly**: a screen whose password file was written by
+rfbEncryptAndStorePasswd for the C string `pw` accepts the response `resp` to the challenge `chal` iff
+`resp` is the VNC encryption of `chal` under `pw`; the session is never view-only. -/
+theorem file_form_exact (fixedKey pw chal resp : List UInt8) (vo : Bool) (h : (0 : UInt8) ∉ pw) :
+    passwordCheck { enc := Des.rfbEncryptBytes, decFile := decryptPasswdFile fixedKey, parseVer := parseVersion }
+        (.file (some (storePasswd fixedKey pw))) chal resp = some vo ↔
+      (resp = rfbEncryptBytes pw chal ∧ vo = false) := by
+  rw [passwordCheck_file_iff]
+  constructor
+  · rintro ⟨bytes, pw', hb, hd, he, hv⟩
+    cases hb
+    simp only at hd he
+    rw [Des.decryptPasswdFile_storePasswd] at hd
+    cases hd
+    rw [Des.rfbEncryptBytes_cstr_padKey pw chal h] at he
+    exact ⟨he.symm, hv⟩
+  · rintro ⟨he, hv⟩
+    refine ⟨_, _, rfl, Des.decryptPasswdFile_storePasswd fixedKey pw, ?_, hv⟩
+    simp only
+    rw [Des.rfbEncryptBytes_cstr_padKey pw chal h, he]
+
 /-- libgcrypt refuses 64 keys (4 weak, 12 semi-weak, 48 possibly weak), as T0 found them -/
 theorem refused_keys_count : Gen.C05.gcryRefusedKeys.length = 64 := by decide
 
-/-- they are keys with at most four different round keys (the reason they are called weak) … -/
-theorem refused_keys_few_subkeys :
-    ∀ k ∈ Gen.C05.gcryRefusedKeys, (distinctCount (subkeys (bitsOfBytes k))) ≤ 4 :=
-  Des.refused_keys_few_subkeys
+/-- their key-schedule halves C0, D0 are invariant under rotation by 4, hence they have at most four
+different round keys (the reason they are called weak) … -/
+theorem refused_keys_halves_period4 :
+    ∀ k ∈ Gen.C05.gcryRefusedKeys,
+      rotl 4 (keyHalves k).1 = (keyHalves k).1 ∧ rotl 4 (keyHalves k).2 = (keyHalves k).2 :=
+  Des.refused_keys_halves_period4
 
-/-- … and the key of the empty password is one of them -/
-theorem empty_password_key_refused : gcryRefuses (vncKey []) = true := by decide
+/-- … and the key of the empty password is one of them (a weak key proper: a single round key) -/
+theorem empty_password_key_refused :
+    gcryRefuses (vncKey []) = true ∧ distinctCount (subkeys (bitsOfBytes (vncKey []))) = 1 :=
+  ⟨by decide, Des.empty_password_one_subkey⟩
 
 /-- **DESIGN §11-a, before the fix**: with the libgcrypt back-end refusing the key and
 `rfbEncryptBytes` ignoring that, the "encryption" of any challenge under the empty password (or any
@@ -368,8 +377,8 @@ the password-less screen in between -/
 example :
     let ch : List UInt8 := [0, 1, 2, 3, 4, 5, 6, 7, 8, 9, 10, 11, 12, 13, 14, 15]
     let s := run true exEnv exScreens {}
-      [.setRand ch, .connect 7 0 false, .recv 7 "RFB 003.008\n".toUTF8.toList, .proc 7,
-       .connect 8 1 false, .recv 8 "RFB 003.007\n".toUTF8.toList, .proc 8,
+      [.setRand ch, .connect 7 0 false, .recv 7 [82, 70, 66, 32, 48, 48, 51, 46, 48, 48, 56, 10], .proc 7,
+       .connect 8 1 false, .recv 8 [82, 70, 66, 32, 48, 48, 51, 46, 48, 48, 55, 10], .proc 8,
        .recv 7 [2], .proc 7, .recv 7 (Des.rfbEncryptBytes [118, 105, 101, 119] ch), .proc 7,
        .recv 7 [0], .proc 7]
     (getConn s 7).map (fun c => (c.st, c.viewOnly, c.reverse, c.sent.length)) = some (.normal, true, false, 5) := by
@@ -377,7 +386,7 @@ example :
 
 /-- the hypotheses of `reach_authentication_38` / `auth_complete` are satisfiable -/
 example : exScreens[0]? = some { pw := .list [[112, 119], [118, 105, 101, 119]] 1 } ∧
-    parseVersion "RFB 003.008\n".toUTF8.toList = some (3, 8) ∧
+    parseVersion [82, 70, 66, 32, 48, 48, 51, 46, 48, 48, 56, 10] = some (3, 8) ∧
     (∀ e ∈ [Ev.connect 8 1 false, .proc 8, .setRand []], e.foreign 7 = true) := by
   refine ⟨rfl, by decide, by decide⟩
 
